@@ -136,6 +136,10 @@ def check_live(res, tr):
                         res.add("new_alloc", "C10.allocation_changed_in_absence." + kind,
                                 "absence step %d: allocation of %s changed between allocation and record" % (k, tid), k)
                 rem_u, rem_r = U["T"][tid][1], R["T"][tid][1]
+                if st.auto(tid) and auto_flag and tid not in st.task_comp and U["T"][tid][0] == READY and A["T"][tid][0] != WORKING:
+                    res.add("auto", "C10.auto_task_not_started_in_absence_although_flag_set",
+                            "absence step %d with perform_auto_task_while_absence_time=True: automatic task %s is READY but is not "
+                            "started (state %s after the allocation phase), so it cannot progress" % (k, tid, SNAME.get(A["T"][tid][0])), k)
                 if st.auto(tid):
                     if A["T"][tid][0] == WORKING and auto_flag:
                         exp = rem_u - st.rate(tid)
